@@ -13,7 +13,7 @@ CHECKS["C01"] = dict(cat="model_checking", ref="DESIGN.md 4/C01",
     technique=TECH)
 CHECKS["C02"] = dict(cat="model_checking", ref="DESIGN.md 4/C02",
     text="Symbolic execution of decode(encode(m)), encode three times, encode(decode(encode(m))) and decode-twice-into-one-object for every class in the decoder tables over all field values of a concrete shape; z3 decides each path. Bounded by list length.",
-    note="Same bounds and trusted base as C01; call histories limited to the four compositions named. Purity compares the bytes of repeated encodes and the caller-set fields (fields encode() computes for itself, e.g. MEI paging outputs, are outputs not inputs).",
+    note="Same bounds and trusted base as C01; call histories limited to the four compositions named. Purity compares the bytes of repeated encodes and the caller-set fields (fields encode() computes for itself, e.g. MEI paging outputs, are outputs not inputs). noacc2.*: a second decode of a different shape (shorter, longer, empty list) into the same object.",
     technique=TECH)
 CHECKS["C03"] = dict(cat="model_checking", ref="DESIGN.md 4/C03",
     text="buildPacket and the whole receive path of all five framers are executed symbolically for every message class: the packet equals the reference ADU (MBAP / unit+PDU+CRC low byte first / ':'+upper hex+LRC+CRLF / bare PDU / '{'..'}') and a fresh framer fed the packet delivers exactly one equal message with unit/tid/pid preserved, for all unit ids, transaction ids and field values. The CRC table code and LRC are proved equal to the standards' definitions by direct AST->z3 translation (K1 step lemma + induction argument, K2).",
@@ -29,19 +29,19 @@ CHECKS["C05"] = dict(cat="model_checking", ref="DESIGN.md 4/C05",
     technique=TECH)
 CHECKS["C14"] = dict(cat="model_checking", ref="DESIGN.md 4/C14",
     text="get_response_pdu_size() of every request class is proved equal to its closed form over unbounded integers (AST->z3 Int translation); the client's read sizes are decided by symbolically executing whole client transactions (real transaction manager, framer, decoder) against a scripted transport holding exactly the frame the real server code sends plus a sentinel: the call returns the decoded reply and leaves exactly the sentinel unread, for normal and exception replies, on RTU/ASCII/binary/TLS/TCP.",
-    note="Quantities are concrete per obligation (quick 1,2,8,9; thorough adds byte-boundary quantities and the spec maxima); unit id and values symbolic; address is one in-range and one out-of-range value. Scripted transport = environment. TLS exception replies are a listed known finding; binary frames with delimiter bytes are C03's.",
+    note="Quantities are concrete per obligation (quick 1,2,8,9; thorough adds byte-boundary quantities and the spec maxima); unit id and values symbolic; address is one in-range and one out-of-range value. Scripted transport = environment. TLS exception replies are a listed known finding; binary frames with delimiter bytes are C03's. Multi-word diagnostic loopback included; K4 closed forms over all integers (pysym knows min/max).",
     technique=TECH)
 CHECKS["C19"] = dict(cat="model_checking", ref="DESIGN.md 4/C19",
     text="BinaryPayloadBuilder/Decoder are executed symbolically for every value type and sequences of up to three typed values under all four byte-order x word-order combinations: the register image equals the conventional layout (reference word/byte shuffle) and the decoder returns every value, through raw bytes and through to_registers/fromRegisters, for EVERY bit pattern of each value (integers over their full ranges; floats as bit patterns, a superset of all floats).",
-    note="IEEE conversion itself is CPython's struct (trusted): floats travel as bit patterns through the two struct calls that touch them. Strings are 3 bytes, bit groups 8 bits, sequences are the type combinations enumerated per obligation. struct.pack of an integer the harness composed from bytes is modelled by the identity to_bytes(from_bytes(b)) == b.",
+    note="IEEE conversion itself is CPython's struct (trusted): floats travel as bit patterns through the two struct calls that touch them. Strings are 3 bytes, bit groups 8 bits, sequences are the type combinations enumerated per obligation. struct.pack of an integer the harness composed from bytes is modelled by the identity to_bytes(from_bytes(b)) == b. text.*: add_string with a str of arbitrary code points (UTF-8 image).",
     technique=TECH)
 CHECKS["C20"] = dict(cat="model_checking", ref="DESIGN.md 4/C20",
     text="The whole Read Device Identification request/response chain (ServerDecoder -> execute -> DeviceInformationFactory -> encode with _encode_object space accounting) is executed symbolically over identity objects of SYMBOLIC length 0..245 and symbolic content: every PDU <= 253 bytes, chain terminates, union of pages = exactly the configured non-empty objects of the category from the start id, each once; response bytes equal header + claimed objects for concrete length vectors incl. boundary lengths; individual access returns exactly the object.",
-    note="Populated object-id sets are concrete per obligation (dictionary keys). With symbolic lengths paging is decided on lengths and header fields (byte equality would make the engine enumerate lengths); byte-level consistency is decided for the concrete length vectors listed. A 245-byte object (fits no PDU) is a listed known finding. Client-side decoding is C01's obligation.",
+    note="Populated object-id sets are concrete per obligation (dictionary keys). With symbolic lengths paging is decided on lengths and header fields (byte equality would make the engine enumerate lengths); byte-level consistency is decided for the concrete length vectors listed. A 245-byte object (fits no PDU) is a listed known finding. Client-side decoding is C01's obligation. bytes.*: every page is also decoded by ClientDecoder and compared with the page sent.",
     technique=TECH)
 CHECKS["C06"] = dict(cat="model_checking", ref="DESIGN.md 4/C06",
     text="The receive paths of the TCP, RTU, ASCII and binary framers are executed symbolically on streams of 1-2 valid frames (all field values, unit ids, transaction ids symbolic) under EVERY schedule with 0, 1 or 2 cuts (thorough: 3 cuts and single-byte delivery; empty reads included): callbacks equal the stream's messages in order and nothing escapes processIncomingPacket. z3 decides each path for all frame contents.",
-    note="Cut positions are enumerated concretely inside each obligation, contents are symbolic. Frames <= 13 bytes. On the unchanged tree only ASCII reassembles split frames: TCP split frames, RTU/binary split or multiple frames per read are listed known findings (their obligations are kept and reported as such).",
+    note="Cut positions are enumerated concretely inside each obligation, contents are symbolic. Frames <= 13 bytes. On the unchanged tree only ASCII reassembles split frames: TCP split frames, RTU/binary split or multiple frames per read are listed known findings (their obligations are kept and reported as such). For TCP, RTU and binary the read schedules are split by a fixed predicate (c06.holds_on_tree) into those the listed chunking findings cover (*.listed, witnesses) and the rest, which are asserted.",
     technique=TECH)
 CHECKS["C07"] = dict(cat="model_checking", ref="DESIGN.md 4/C07",
     text="For ANY buffer of the stated length handed to a fresh receiver (all bytes symbolic except the function-code position), every delivered message is the decoder's result for a PDU that a frame in the buffer carries with a valid integrity check (CRC low byte first / LRC over valid hex / consistent MBAP length) and with the delivered unit/transaction ids - decided by z3 over all buffers, which subsumes every corruption, truncation and extension of valid frames. SMT lemmas K5 prove that CRC-16/Modbus detects all 1-3 bit errors and all bursts <= 16 bits and that the LRC detects every single-character change, for frames of the stated size.",
@@ -49,11 +49,11 @@ CHECKS["C07"] = dict(cat="model_checking", ref="DESIGN.md 4/C07",
     technique=TECH)
 CHECKS["C11"] = dict(cat="model_checking", ref="DESIGN.md 4/C11",
     text="Liveness reduced to bounded safety and decided symbolically: from the state an arbitrary garbage chunk (arbitrary bytes, bad-checksum frame, foreign-unit frame, truncated frame, lone delimiters; contents symbolic) leaves in an RTU/ASCII/binary receiver, four valid frames are read one (or two) per read; the 3rd and 4th are delivered as the frame's own message and the backlog stays <= garbage + one frame.",
-    note="Garbage <= 8 bytes in one read; receiver = framer + the serial handlers' reset-on-exception rule. With the CRC uninterpreted, checksum-valid windows straddling garbage and valid traffic are assumed away (1 in 65536 per window for the real CRC). ASCII deafness after a rejected complete frame and RTU/binary one-frame-per-read are listed known findings.",
+    note="Garbage <= 8 bytes in one read; receiver = framer + the serial handlers' reset-on-exception rule. With the CRC uninterpreted, checksum-valid windows straddling garbage and valid traffic are assumed away (1 in 65536 per window for the real CRC). ASCII deafness after a rejected complete frame and RTU/binary one-frame-per-read are listed known findings. handler.*: the real serial handler loop; sizebound.*/sizeformula.*: the RTU frame size announced by arbitrary header bytes is bounded (FIFO and device-identification responses: listed finding KF-rtu-announced-size-uncapped).",
     technique=TECH)
 CHECKS["C09"] = dict(cat="model_checking", ref="DESIGN.md 4/C09",
     text="The handler loops, execute() and send() of all seven server front-ends (sync TCP/serial/UDP, asyncio TCP/UDP, Twisted TCP/UDP) are executed symbolically on 1-2 well-formed requests with symbolic transaction ids, unit id, addresses, values and initial registers: the bytes written back are exactly one reference response frame per request, in order (reference register-file model wrapped in the reference ADU with the request's ids); nothing is written for broadcast, ignored absent units and listen-only responses; a raising datastore is answered with exception 04.",
-    note="Front-ends are driven through fake sockets/transports and a queue-only event loop (no selector, threads or reactor) - these fakes are the environment. Requests are FC 6 / FC 3 / FC 8-04 on a 4-register table; reads are whole frames. Twisted UDP answering listen-only requests is a listed known finding.",
+    note="Front-ends are driven through fake sockets/transports and a queue-only event loop (no selector, threads or reactor) - these fakes are the environment. Requests are FC 6 / FC 3 / FC 8-04 on a 4-register table; reads are whole frames. Twisted UDP answering listen-only requests is a listed known finding. silent.*.broadcast-fail: a broadcast whose execution raises is still unanswered.",
     technique=TECH)
 CHECKS["C10"] = dict(cat="model_checking", ref="DESIGN.md 4/C10",
     text="Every front-end is executed symbolically with two hosted unit contexts whose ids are SYMBOLIC (distinct, 0..247) and a write request addressed to a symbolic unit id 0..255, for each combination of ignore_missing_slaves / broadcast_enable: exactly the addressed unit changes as the reference model prescribes; broadcast is applied once to both units with no response; an absent unit changes nothing and is answered not at all or with a gateway exception; single mode routes every id to the one context.",
@@ -61,19 +61,19 @@ CHECKS["C10"] = dict(cat="model_checking", ref="DESIGN.md 4/C10",
     technique=TECH)
 CHECKS["C12"] = dict(cat="model_checking", ref="DESIGN.md 4/C12",
     text="ANY byte string of the stated length (all bytes symbolic but the function-code position) is sent to each front-end in one or two reads: no exception leaves the front-end (Twisted: reactor contract), the datastore afterwards is unchanged or exactly what a checksum-valid write frame contained in the input prescribes (C07's recogniser + register-file model), and a probe request on a fresh connection is answered correctly.",
-    note="Inputs: TCP 12 bytes, RTU 8, ASCII 17 in quick (more lengths/function codes in thorough). CRC as uninterpreted contract on both receiver and recogniser side. The ASCII lenient-LRC region is a listed known finding.",
+    note="Inputs: TCP 12 bytes, RTU 8, ASCII 17 in quick (more lengths/function codes in thorough). CRC as uninterpreted contract on both receiver and recogniser side. The ASCII lenient-LRC region is a listed known finding. framed.*.fc<k>: every function code of the server decoder table with arbitrary bodies (dictionary-dispatched bytes fixed per obligation); truncated RTU requests; a path that does not return is ended by a CPU budget and reported only if the concrete replay does not return either.",
     technique=TECH)
 CHECKS["C17"] = dict(cat="model_checking", ref="DESIGN.md 4/C17",
     text="Differential symbolic model checking: the synchronous, asyncio and Twisted front-ends (stream trio and datagram trio) are run on the SAME symbolic request bytes (1-2 requests of a given function code, every body byte, ids and the initial coils/registers symbolic; valid and invalid requests alike) on copies of the same datastore: outputs byte-identical, final datastores identical, same decision to give the connection up. Interleaving obligation: two connections with reads a1, b, a2 (a split ASCII frame) get exactly the output they get alone - framing state is per connection.",
-    note="No reference model is needed (the front-ends are each other's oracle), so any request body is in scope. Only features all front-ends support (no broadcast). Sync interleaving is emulated at recv() boundaries. Twisted UDP's shared, never-reset framer is a listed known finding. idle-timeout.*: recv() time-outs on the synchronous stream handler before/between requests (and around a split ASCII frame) change nothing.",
+    note="No reference model is needed (the front-ends are each other's oracle), so any request body is in scope. Only features all front-ends support (no broadcast). Sync interleaving is emulated at recv() boundaries. Twisted UDP's shared, never-reset framer is a listed known finding. idle-timeout.*: recv() time-outs on the synchronous stream handler before/between requests (and around a split ASCII frame) change nothing. peers.*: two datagram peers, back-to-back delivery, replies checked per destination; MEI requests in the quick differentials (type 14, any read code, object ids 0..8).",
     technique=TECH)
 CHECKS["C08"] = dict(cat="model_checking", ref="DESIGN.md 4/C08",
     text="A whole synchronous client transaction (BaseModbusClient.execute, ModbusTransactionManager.execute/_transact/_recv, framer receive path, ClientDecoder) is executed symbolically from a SYMBOLIC transaction-id counter against ANY reply bytes of the stated length: whatever is returned is an error object or a response decoded from a checksum-valid frame in the received bytes that carries the request's transaction id (TCP) / unit id (serial) and the request's function code or that code | 0x80; stale valid frames before the right reply are covered too. The 'well-formed reply is returned decoded' clause is decided by C14's exact.* obligations.",
-    note="One transaction per obligation, retries 0, scripted transport = environment; reply lengths: one-register read reply (+1 in thorough), function-code byte enumerated. The client accepting replies with a foreign transaction id / function code is a listed known finding, carved by exactly that predicate.",
+    note="One transaction per obligation, retries 0, scripted transport = environment; reply lengths: one-register read reply (+1 in thorough), function-code byte enumerated. The client accepting replies with a foreign transaction id / function code is a listed known finding, carved by exactly that predicate. history.*: three healthy transactions in one process (two clients) each return exactly their own reply's values.",
     technique=TECH)
 CHECKS["C13"] = dict(cat="model_checking", ref="DESIGN.md 4/C13",
     text="The client transaction loop (retry loop, _transact error handling, framer reset, _recv) is executed symbolically with a SYMBOLIC choice of transport behaviour per attempt (full reply, exception reply, nothing, half a reply, symbolic garbage, other-unit frame, stale reply, OSError): the call returns an error object or a response without raising, transmits at most 1+retries times, and a following healthy transaction returns its own correct reply; the documented retry options are checked on two-attempt scripts; the TCP client's deadline loop terminates under a symbolic clock that advances at least timeout/4 per observation.",
-    note="Scripts of 1+retries attempts, retries 0..1 quick (0..2 thorough); scripted transport and clock are the environment; time.sleep no-op. RTU/binary: garbage and half frames assumed not checksum-valid under the uninterpreted CRC. Two listed known findings: exceptions escaping execute() on garbage (ASCII/binary), retry_on_empty alone never retries. peerclose.*: a connection the peer closed after k reply bytes (k symbolic) stays dead until the client closes it; a close after the header (k >= 8 on TCP) is the listed finding KF-client-keeps-dead-connection-after-truncated-reply.",
+    note="Scripts of 1+retries attempts, retries 0..1 quick (0..2 thorough); scripted transport and clock are the environment; time.sleep no-op. RTU/binary: garbage and half frames assumed not checksum-valid under the uninterpreted CRC. Two listed known findings: exceptions escaping execute() on garbage (ASCII/binary), retry_on_empty alone never retries. peerclose.*: a connection the peer closed after k reply bytes (k symbolic) stays dead until the client closes it; a close after the header (k >= 8 on TCP) is the listed finding KF-client-keeps-dead-connection-after-truncated-reply. realtcp.*/realserial.*: the real ModbusTcpClient / ModbusSerialClient over a fake socket / port (garbage replies, stale bytes before a request). The known-finding carve for exceptions escaping execute() is by call site (framer.processIncomingPacket / decode_data).",
     technique=TECH)
 CHECKS["C15"] = dict(cat="other", ref="DESIGN.md 4/C15",
     text="Thread schedules cannot be explored by this family of technique. The property is reduced to a lock-discipline premise that IS decided symbolically on the real code: under symbolic transport faults (incl. exceptions) every access to the shared transaction state (transport send/recv/connect/close, framer buffer, transaction-id counter, reply slots) happens while one and the same lock reachable from the client is owned, and no lock is owned after execute() returns or raises. Lock discipline + release on every exit implies serialisability of whole transactions (stated reduction); serial behaviour is C08/C13/C14.",
